@@ -209,6 +209,14 @@ def run(tier, seed):
             if n % 2500 == 11:
                 run.sample({"hist": case["hist"], "cuts": case.get("cuts"), "pieces": r.get("pieces"), "expected_segs": case["segs"]})
             n += 1
+        # beyond the exhaustive bound: random behaviours of 7 commands with random cut sets
+        sres, vals = engine.simulate_cases(work, "MC_C17", {"MaxCmds": 7, "NVar": 2}, num=(2 if tier == "quick" else 60), depth=16,
+                                           seed=seed + 1, init="InitC")
+        run.add_tlc(sres, "PathInterp + Split by TLC -simulate: %d behaviours of 7 commands" % sres["behaviours"])
+        sim = [{"hist": v[1], "segs": v[2], "cuts": v[3], "parts": v[4]} for v in vals]
+        for case, r in engine.replay("harness.c17_dispatch", sim):
+            run.record(case, r, key=r["class"])
+        run.extra["simulated_behaviours_replayed"] = len(sim)
     finally:
         engine.cleanup(work)
     run.rule = ("cases = states of MC_C17 with >=1 cut (history of appends; every command-boundary split set of every behaviour "
